@@ -22,7 +22,7 @@ import extract
 import griffe_extract
 import implrun
 import pkggen
-from common import driver_batch
+from common import driver_batch, pool_results
 
 _IMPL = None
 
@@ -183,7 +183,7 @@ def run(ctx) -> None:
     implrun.WORK.mkdir(exist_ok=True)
     results = []
     with mp.get_context("fork").Pool(min(16, os.cpu_count() or 4)) as pool:
-        for r in pool.imap_unordered(one_case, tasks, chunksize=1):
+        for r in pool_results(pool, one_case, tasks, ctx.deadline):
             if time.time() > ctx.deadline:
                 pool.terminate()
                 break
